@@ -505,7 +505,7 @@ spif_mbuff_ncmp(spif_mbuff_t self, spif_mbuff_t other, spif_memidx_t cnt)
 
     SPIF_OBJ_COMP_CHECK_NULL(self, other);
     if (cnt > self->len || cnt > other->len) {
-        cnt = MIN(self->len, other->len);
+        return spif_mbuff_cmp(self, other);
     }
     c = memcmp(SPIF_MBUFF_BUFF(self), SPIF_MBUFF_BUFF(other), cnt);
     return SPIF_CMP_FROM_INT(c);
